@@ -14,7 +14,10 @@ package sim
 import (
 	"bytes"
 	"encoding/binary"
+	"math/big"
 	"reflect"
+
+	"github.com/ethereum/go-ethereum/crypto"
 
 	"github.com/glowlabs-org/gca-backend/glow"
 	"github.com/glowlabs-org/gca-backend/server"
@@ -24,11 +27,11 @@ func init() {
 	Register(&Property{
 		ID:             "C01",
 		Run:            runC01,
-		Rule:           "runs = one (now, offset) configuration reached by clock jumps / real rotations / a stalled rotation thread / restart, then 60-400 adversarial datagrams (bit flips, field swaps, re-signing under every other key, prefix tampering, boundary timeslots, sentinel powers, truncation, extension, random bytes, replays); non-trivial = at least one non-acceptable datagram of at least three different kinds was delivered; distinct = distinct decision signatures",
+		Rule:           "runs = one (now, offset) configuration reached by clock jumps / real rotations / a stalled rotation thread / restart, then 60-400 adversarial datagrams (bit flips, field swaps, re-signing under every other key, prefix tampering, boundary timeslots, sentinel powers, truncation, extension, random bytes, replays, the other root s -> N-s of a genuine signature); non-trivial = at least one non-acceptable datagram of at least three different kinds was delivered; distinct = distinct decision signatures",
 		Real:           []string{"server report handler (parse, verify, acceptance range, window guard, integrate, persist)", "rotation loop, impact loop", "stats/recent-reports/sync surfaces", "glow codecs and secp256k1", "real files on tmpfs"},
 		Stub:           []string{"UDP socket read loop (modelled: datagrams shorter than 80 bytes are discarded, longer ones cut to 80)"},
 		Assumptions:    []string{"the kernel-facing UDP loop hands exactly the leading 80 bytes of datagrams of at least 80 bytes to the report handler"},
-		RequiredProbes: []string{"c01.accepted", "c01.kind.bitflip", "c01.kind.resign-other", "c01.kind.slot-edge", "c01.kind.short", "c01.kind.long", "c01.kind.sentinel", "c01.stalled", "c01.rotated", "c01.edge.window-end", "c01.edge.accept+433", "c01.edge.accept-433"},
+		RequiredProbes: []string{"c01.accepted", "c01.kind.bitflip", "c01.kind.resign-other", "c01.kind.slot-edge", "c01.kind.short", "c01.kind.long", "c01.kind.sentinel", "c01.kind.malleated-signature", "c01.stalled", "c01.rotated", "c01.edge.window-end", "c01.edge.accept+433", "c01.edge.accept-433"},
 		RequiredSites:  []string{"migrate.wake", "report.before-write", "report.after-write", "migrate.before-shift", "listen.udp"},
 	})
 }
@@ -150,7 +153,7 @@ func runC01(m *Sim) {
 		}
 		r := SignedReport(d.Key, d.ID, slot, power)
 		b := r.Encode()
-		kind := m.C.Weighted("mutation", 6, 3, 2, 3, 2, 2, 2, 2, 1, 2, 1, 2)
+		kind := m.C.Weighted("mutation", 6, 3, 2, 3, 2, 2, 2, 2, 1, 2, 1, 2, 2)
 		name := "asis"
 		switch kind {
 		case 1: // bit flips
@@ -231,6 +234,19 @@ func runC01(m *Sim) {
 			r2 := r
 			r2.Sig = glow.Sign(ReportSigningBytes(r.ID, r.Slot, r.Power+1), d.Key.Priv)
 			b = r2.Encode()
+		case 12: // the other root of the same signature (s -> N-s): needs no key
+			name = "malleated-signature"
+			src := b
+			if len(history) > 0 && m.C.Chance("of-earlier", 1, 2) {
+				src = history[m.C.Int("which", len(history))]
+			}
+			if len(src) >= 80 {
+				b = append([]byte{}, src[:80]...)
+				sv := new(big.Int).SetBytes(b[48:80])
+				sv.Sub(crypto.S256().Params().N, sv)
+				sv.FillBytes(b[48:80])
+			}
+			m.Probe("c01.kind.malleated-signature")
 		case 11: // id of one device, key of another device
 			name = "id-key-mismatch"
 			o := devs[(int(d.ID-10)+1)%len(devs)]
